@@ -17,6 +17,7 @@ import TgModel.Lemmas.IdeSemCoreP
 import TgModel.Lemmas.IdeSemCoreT
 import TgModel.Lemmas.Sem10Core5
 import TgModel.Lemmas.Sem10List
+import TgModel.Lemmas.Sem11Core7
 import TgModel.Props.C03
 
 namespace Tg.C13
@@ -2723,13 +2724,27 @@ Accepted by `coreStatementList6` (`Lemmas/Sem10Core5.lean`), wider again: the sa
 * fields of list type may be named as initialisers and `defvar` values like the others (a `list<A>` value is
   castable to a `list<B>` field iff `A` is castable to `B`).
 
+Accepted by `coreStatementList7` (`Lemmas/Sem11Core7.lean`), wider again: the same with fields of class type,
+* the type of a field may also be the name `A` of a class declared earlier in the list by an accepted statement
+  (the latest declaration of the name counts; inside the body of `A` itself the name does not count); the checker
+  knows the record id of every class - the `i`-th `class` / `def` statement allocates record `i` - and the static
+  type of the field is `A` with that id;
+* such a field may be left without initialiser, or be initialised by `?` or by the name of a field in scope of
+  the same class type (same record id).
+
 Rejected (not covered): named template arguments, class values and every other value form as initialiser,
 argument or `defvar` value (the empty list `[]`, annotated lists `[…]<T>`, lists of identifiers or of literals
 of different types, nested lists included), identifiers naming anything but a variable, field or parameter in
-scope, `list<list<…>>`, `list<C>` and class types, template parameters of list type, `defvar` in `foreach` /
-`if` / `multiclass` bodies, `foreach`, `if`, `defset`, `multiclass`/`defm`, bang operators, `include`,
-top-level `let`. -/
+scope - in particular the names of `def`s as values (`A a = D0;`) and fields of a subclass type as initialisers
+of a field of the superclass type -, `list<list<…>>`, `list<C>`, template parameters of list or class type,
+`defvar` in `foreach` / `if` / `multiclass` bodies, `foreach`, `if`, `defset`, `multiclass`/`defm`, bang
+operators, `include`, top-level `let`. -/
 def coreProgramB (sl : PTree) : Bool :=
+  coreProgramB12 sl || coreStatementList3 sl || coreStatementList4 sl || coreStatementList5 sl || coreStatementList6 sl ||
+    coreStatementList7 sl
+
+/-- the judgement of (6) before fields of class type were added -/
+def coreProgramB6 (sl : PTree) : Bool :=
   coreProgramB12 sl || coreStatementList3 sl || coreStatementList4 sl || coreStatementList5 sl || coreStatementList6 sl
 
 /-- the judgement of (6) before lists were added -/
@@ -2763,13 +2778,22 @@ theorem core_statements_quiet5 (k : Nat) (sl : PTree) (hcore : coreProgramB5 sl 
 
 /-- **(6a''')** the same for the whole judgement, with one more level of fuel (the sixth checker indexes the
 elements of list literals one level deeper) -/
-theorem core_statements_quiet6 (k : Nat) (sl : PTree) (hcore : coreProgramB sl = true) (c c' : IndexCtx)
+theorem core_statements_quiet6 (k : Nat) (sl : PTree) (hcore : coreProgramB6 sl = true) (c c' : IndexCtx)
     (hsm : c.symbolMap = {}) (hsc : c.scopes = {}) (htr : c.fileTrace ≠ [])
     (h : ((mkRec (k + 3)).statementList sl).run c = .ok ((), c')) : c'.diagnostics = c.diagnostics := by
-  unfold coreProgramB at hcore
+  unfold coreProgramB6 at hcore
   rcases Bool.or_eq_true_iff.1 hcore with h5 | h6
   · exact core_statements_quiet5 (k + 1) sl h5 c c' hsm hsc htr h
   · exact indexStatementList6_quiet k sl h6 c c' hsm hsc htr h
+
+/-- **(6a'''')** the same for the whole judgement -/
+theorem core_statements_quiet7 (k : Nat) (sl : PTree) (hcore : coreProgramB sl = true) (c c' : IndexCtx)
+    (hsm : c.symbolMap = {}) (hsc : c.scopes = {}) (htr : c.fileTrace ≠ [])
+    (h : ((mkRec (k + 3)).statementList sl).run c = .ok ((), c')) : c'.diagnostics = c.diagnostics := by
+  unfold coreProgramB at hcore
+  rcases Bool.or_eq_true_iff.1 hcore with h6 | h7
+  · exact core_statements_quiet6 k sl h6 c c' hsm hsc htr h
+  · exact indexStatementList7_quiet k sl h7 c c' hsm hsc htr h
 
 /-- **(6b) `core_no_diagnostics_partial`**: a workspace whose root file is a core program
 (`coreProgramB`, see there for exactly what is accepted) and has no other statements - in particular
@@ -2793,7 +2817,7 @@ theorem core_no_diagnostics_partial (ws : Workspace) (res : IndexResult) (h : in
         rw [hsl]
       rw [this] at hrun
       exact hrun
-    exact core_statements_quiet6 j sl hcore _ _ rfl rfl (by simp [IndexCtx.new]) hrun'
+    exact core_statements_quiet7 j sl hcore _ _ rfl rfl (by simp [IndexCtx.new]) hrun'
 
 /-- the judgement on the root file of a workspace -/
 def coreWorkspaceB (ws : Workspace) : Bool :=
@@ -3147,6 +3171,33 @@ theorem core6Source_checked :
 example : ∃ ws res, buildWorkspace [("/w/core.td", core6Source)] "/w/core.td" none = .ok ws ∧
     coreWorkspaceB ws = true ∧ index ws = .ok res ∧ res.diagnostics = #[] :=
   checked_no_diagnostics _ _ core6Source_checked
+
+/-- fields of class type in the shape of a register / instruction description: a field of the type of an earlier
+class, one of a subclass, a copy of a field of the same class type, `?` as initialiser; a def with such a field -/
+def core7Source : String :=
+  "class Reg { string Name = \"r\"; }\n" ++
+  "class GPR : Reg { int Bits = 64; }\n" ++
+  "class Inst { Reg Base; GPR Dst = ?; Reg Src = Base; list<int> Ops = [1, 2]; }\n" ++
+  "def ADD : Inst { GPR Tmp; Reg Alias = Src; }\n"
+
+/-- the program is built by `buildWorkspace` and accepted by the judgement - by the seventh checker only (checked
+by evaluation) -/
+theorem core7Source_checked :
+    checkedSrc core7Source (fun sl => coreStatementList7 sl && !coreProgramB6 sl) = true := by decide +kernel
+
+/-- its index run succeeds (C03) and - by `core_workspace_no_diagnostics` - reports nothing -/
+example : ∃ ws res, buildWorkspace [("/w/core.td", core7Source)] "/w/core.td" none = .ok ws ∧
+    coreWorkspaceB ws = true ∧ index ws = .ok res ∧ res.diagnostics = #[] :=
+  checked_no_diagnostics _ _ core7Source_checked
+
+/-- a class used before its declaration and a field of another class type as initialiser are rejected by the
+judgement -/
+example : (match buildWorkspace [("/w/bad.td", "class Inst { Reg r; }\nclass Reg { }\n")] "/w/bad.td" none with
+    | .ok ws => coreWorkspaceB ws
+    | .error _ => true) = false := by decide +kernel
+example : (match buildWorkspace [("/w/bad.td", "class Reg { }\nclass GPR : Reg { }\nclass Inst { Reg r; GPR g = r; }\n")] "/w/bad.td" none with
+    | .ok ws => coreWorkspaceB ws
+    | .error _ => true) = false := by decide +kernel
 
 /-- a list with elements of two types and a list of the wrong element type are rejected by the judgement -/
 example : (match buildWorkspace [("/w/bad.td", "def d { list<int> a = [1, \"x\"]; }\n")] "/w/bad.td" none with
